@@ -5,7 +5,7 @@ the analysis never guesses.  The list is deliberately wider than what today's tr
 rewrites (`iter().fold`, `sort_by` with a reversed comparator, `binary_search`, `checked_sub`, …) stay analysable.
 """
 from .pdb import Uncertified, INT_BITS
-from .sym import (mk, C, agg, mk_bin, mk_ite, mk_not, mk_and, mk_or, mk_cast, mk_call, mk_un, ty_of, TRUE, FALSE, UNIT,
+from .sym import (overflow_flag, mk, C, agg, mk_bin, mk_ite, mk_not, mk_and, mk_or, mk_cast, mk_call, mk_un, ty_of, TRUE, FALSE, UNIT,
                   UNDEF, OPTION_NONE, option_some, map_ite, Obligation, wrap)
 
 ORDERING = 'core::cmp::Ordering'
@@ -266,6 +266,12 @@ def iter_items_cond(ex, ctx, st, it):
         if nm in ('Copied', 'Cloned'):
             inner, st = iter_items_cond(ex, ctx, st, it[2][0])
             return [(c, ex.load(st, x) if x[0] == 'ref' else x) for c, x in inner], st
+        if nm in ('SliceIter', 'ArrayIter') and it[2][1][0] != 'c' and it[2][0][0] == 'agg' and pos_consts(it[2][1]):
+            seq, pos = it[2]
+            out = []
+            for i in range(min(min(pos_consts(pos)), len(seq[2])), len(seq[2])):
+                out.append((map_ite_memo(pos, lambda p, i=i: TRUE if p[1] <= i else FALSE), seq[2][i]))
+            return out, st
         if nm == 'CondSeq':
             seq, conds, pos = it[2]
             pc_ = pos_consts(pos)
@@ -394,6 +400,8 @@ def apply(ex, ctx, st, f, args, dest_ty, term):
     pdb = ex.pdb
     path = f.get('resolved') or f['def']
     dpath = f['def']
+    if path.startswith('std::slice::<impl [T]>::'):
+        path = 'alloc::slice::<impl [T]>::' + path[len('std::slice::<impl [T]>::'):]   # same items, printed through std
     name = f.get('name', '')
     key = ctx['key']
     line = term.get('line')
@@ -428,6 +436,14 @@ def apply(ex, ctx, st, f, args, dest_ty, term):
         a, b = args
         ty = ty_of(a)
         return mk_ite(mk_bin('Lt', a, b, ty, 'bool'), C(0, ty), mk_bin('Sub', a, b, ty, ty)), st
+    if int_method('saturating_add'):
+        a, b = args
+        ty = ty_of(a)
+        from .pdb import is_signed as _sg2
+        if _sg2(ty):
+            raise Uncertified("saturating_add on a signed type")
+        return mk_ite(mk('bin', 'AddOvf', a, b, 'bool') if not (a[0] == 'c' and b[0] == 'c') else C(overflow_flag('Add', a[1], b[1], ty), 'bool'),
+                      C((1 << INT_BITS[ty]) - 1, ty), mk_bin('Add', a, b, ty, ty)), st
     if int_method('checked_shr') or int_method('checked_shl'):
         a, b = args
         ty = ty_of(a)
@@ -461,6 +477,25 @@ def apply(ex, ctx, st, f, args, dest_ty, term):
         x_, y_ = ex.load(st, args[0]), ex.load(st, args[1])
         ty = ty_of(x_)
         return mk_bin({'lt': 'Lt', 'le': 'Le', 'gt': 'Gt', 'ge': 'Ge', 'eq': 'Eq', 'ne': 'Ne'}[name], x_, y_, ty, 'bool'), st
+    if path in ('core::char::methods::<impl char>::from_u32', 'core::char::from_u32', 'core::char::convert::from_u32'):
+        v_ = args[0]
+        ok_ = mk_or(mk_bin('Lt', v_, C(0xD800, 'u32'), 'u32', 'bool'),
+                    mk_and(mk_bin('Gt', v_, C(0xDFFF, 'u32'), 'u32', 'bool'), mk_bin('Le', v_, C(0x10FFFF, 'u32'), 'u32', 'bool')))
+        return mk_ite(ok_, option_some(mk_cast(v_, 'char')), OPTION_NONE), st
+    if path == 'core::slice::<impl [T]>::copy_within':
+        arr = ex.load(st, args[0])
+        rg = args[1]
+        if arr[0] != 'agg' or rg[0] != 'agg' or rg[1][0] != 'adt' or not rg[1][1].endswith('Range') or rg[2][0][0] != 'c' or rg[2][1][0] != 'c' or args[2][0] != 'c':
+            raise Uncertified("copy_within with a symbolic range or on %s" % arr[0])
+        lo_, hi_, d_ = rg[2][0][1], rg[2][1][1], args[2][1]
+        n_ = len(arr[2])
+        okc_ = lo_ <= hi_ <= n_ and d_ + (hi_ - lo_) <= n_
+        ex.obligations.append(Obligation(key, line, 'copy_within bounds', C(1 if okc_ else 0, 'bool'), ex.gs(st), None, tuple(ex.fn_stack)))
+        if okc_:
+            l_ = list(arr[2])
+            l_[d_:d_ + hi_ - lo_] = arr[2][lo_:hi_]
+            ex.store(st, args[0], mk('agg', arr[1], tuple(l_)))
+        return UNIT, st
     # ---- chars
     if path.startswith('core::char::methods::<impl char>::'):
         c0 = args[0]
@@ -491,12 +526,53 @@ def apply(ex, ctx, st, f, args, dest_ty, term):
             return mk_or(lower, upper), st
         if name == 'is_ascii':
             return mk_bin('Le', c0, C(127, 'char'), 'char', 'bool'), st
+        if name in ('is_whitespace', 'is_ascii_whitespace'):
+            # Unicode White_Space (char::is_whitespace) / the five ASCII ones (U+000B is not among them)
+            pts = ([0x09, 0x0A, 0x0B, 0x0C, 0x0D, 0x20, 0x85, 0xA0, 0x1680, 0x2028, 0x2029, 0x202F, 0x205F, 0x3000] + list(range(0x2000, 0x200B))) \
+                if name == 'is_whitespace' else [0x09, 0x0A, 0x0C, 0x0D, 0x20]
+            r_ = FALSE
+            for cp in pts:
+                r_ = mk_or(r_, mk_bin('Eq', c0, C(cp, 'char'), 'char', 'bool'))
+            return r_, st
+        if name == 'is_ascii_alphanumeric':
+            return mk_or(mk_or(lower, upper), digit), st
+        if name == 'to_digit' and args[1][0] == 'c' and args[1][1] == 10:
+            return mk_ite(digit, option_some(mk_bin('Sub', mk_cast(c0, 'u32'), C(48, 'u32'), 'u32', 'u32')), OPTION_NONE), st
         raise Uncertified("char::%s" % name)
     if int_method('pow'):
         a, b = args
         if a[0] == 'c' and b[0] == 'c':
             return C(wrap(a[1] ** b[1], a[2]), a[2]), st
+        if b[0] == 'c' and 0 <= b[1] <= 16:
+            ty = ty_of(a)
+            acc = C(1, ty)
+            for _ in range(b[1]):
+                if acc[0] == 'c' and acc[1] == 1:
+                    acc = a
+                    continue
+                ex.obligations.append(Obligation(key, line, 'Overflow:Mul', mk_not(mk('bin', 'MulOvf', acc, a, 'bool')), ex.gs(st), [acc, a], tuple(ex.fn_stack)))
+                acc = mk_bin('Mul', acc, a, ty, ty)
+            return acc, st
         raise Uncertified("pow with symbolic operands")
+    if int_method('swap_bytes') or int_method('reverse_bits'):
+        a = args[0]
+        ty = ty_of(a)
+        bits = INT_BITS[ty]
+        unit = 8 if name == 'swap_bytes' else 1
+        mask = C((1 << unit) - 1, ty)
+        out_ = C(0, ty)
+        for i in range(0, bits, unit):
+            piece = mk_bin('BitAnd', mk_bin('Shr', a, C(i, 'u32'), ty, ty), mask, ty, ty)
+            out_ = mk_bin('BitOr', out_, mk_bin('Shl', piece, C(bits - unit - i, 'u32'), ty, ty), ty, ty)
+        return out_, st
+    if int_method('next_power_of_two'):
+        a = args[0]
+        ty = ty_of(a)
+        bits = INT_BITS[ty]
+        lz = mk_call('leading_zeros', (mk_bin('Sub', a, C(1, ty), ty, ty),), 'u32')
+        sh = mk_bin('Sub', C(bits, 'u32'), lz, 'u32', 'u32')
+        ex.obligations.append(Obligation(key, line, 'next_power_of_two overflow', mk_or(mk_bin('Le', a, C(1, ty), ty, 'bool'), mk_bin('Lt', sh, C(bits, 'u32'), 'u32', 'bool')), ex.gs(st), [a], tuple(ex.fn_stack)))
+        return mk_ite(mk_bin('Le', a, C(1, ty), ty, 'bool'), C(1, ty), mk_bin('Shl', C(1, ty), sh, ty, ty)), st
     if int_method('is_power_of_two'):
         a = args[0]
         return mk_bin('Eq', mk_call('count_ones', (a,), 'u32'), C(1, 'u32'), 'u32', 'bool'), st
@@ -841,6 +917,24 @@ def apply(ex, ctx, st, f, args, dest_ty, term):
         if name == 'unwrap_or_default':
             d = default_value(ex, dest_ty)
             return map_ite(o, lambda l: l[2][0] if l[1][2] == okix else d), st
+        if name == 'unwrap_or_else':
+            def ruoe(l):
+                nonlocal st
+                if l[1][2] == okix:
+                    return l[2][0]
+                r, st = call_closure(ex, ctx, st, args[1], [l[2][0]])
+                return r
+            return gmap(ex, o, ruoe), st
+        if name in ('map', 'map_err'):
+            def rmap(l):
+                nonlocal st
+                if (l[1][2] == okix) != (name == 'map'):
+                    return l
+                r, st = call_closure(ex, ctx, st, args[1], [l[2][0]])
+                return agg(l[1], (r,))
+            return gmap(ex, o, rmap), st
+        if name == 'err':
+            return map_ite(o, lambda l: option_some(l[2][0]) if l[1][2] != okix else OPTION_NONE), st
         if name in ('unwrap', 'expect'):
             isok = map_ite(o, lambda l: C(1 if l[1][2] == okix else 0, 'bool'))
             ex.obligations.append(Obligation(key, line, 'Result::' + name, isok, ex.gs(st), None, tuple(ex.fn_stack)))
@@ -956,7 +1050,11 @@ def apply(ex, ctx, st, f, args, dest_ty, term):
         ty = ty_of(a)
         bits = INT_BITS[ty]
         if b[0] != 'c':
-            raise Uncertified("rotate by a symbolic amount")
+            # shifts wrap their amount (mod the width), so `a << k | a >> (width - k)` is the rotation for every k
+            kk = mk_bin('Rem', b, C(bits, 'u32'), 'u32', 'u32')
+            back = mk_bin('Sub', C(bits, 'u32'), kk, 'u32', 'u32')
+            l_, r_ = ('Shl', 'Shr') if name == 'rotate_left' else ('Shr', 'Shl')
+            return mk_bin('BitOr', mk_bin(l_, a, kk, ty, ty), mk_bin(r_, a, back, ty, ty), ty, ty), st
         n_ = b[1] % bits
         if n_ == 0:
             return a, st
@@ -1416,7 +1514,37 @@ def apply(ex, ctx, st, f, args, dest_ty, term):
         return m_iter('ArrayIter', agg(('array',), a_ + b_), C(0, 'usize')), st
     if dpath == 'core::iter::Iterator::filter':
         return m_iter('Filter', args[0], args[1]), st
-    if dpath == 'core::iter::Iterator::collect' or dpath == 'core::iter::Iterator::last' or dpath == 'core::iter::Iterator::nth':
+    if dpath in ('core::iter::Iterator::rposition', 'core::iter::DoubleEndedIterator::rposition') or name == 'rposition':
+        items, st = iter_items(ex, ctx, st, args[0])
+        res = OPTION_NONE
+        for i in range(len(items)):
+            r, st = call_closure(ex, ctx, st, args[1], [items[i]])
+            res = mk_ite(r, option_some(C(i, 'usize')), res)      # the last match wins
+        return res, st
+    if dpath == 'core::iter::Iterator::last':
+        citems, st = iter_items_cond(ex, ctx, st, args[0])
+        res = OPTION_NONE
+        for c, x in citems:
+            res = option_some(x) if c is TRUE else mk_ite(c, option_some(x), res)
+        return res, st
+    if dpath == 'core::iter::Iterator::nth' and args[1][0] == 'c':
+        itref = args[0]
+        it_ = ex.load(st, itref) if itref[0] == 'ref' else itref
+        if it_[0] == 'agg' and it_[1] == ('model', 'Chars') and it_[2][0][0] != 'c' and it_[2][1][0] == 'c':
+            s_, pos = it_[2]
+            at = C(pos[1] + args[1][1], 'usize')
+            if itref[0] == 'ref':
+                ex.store(st, itref, mk('agg', it_[1], (s_, C(at[1] + 1, 'usize'))))
+            return mk_ite(mk_call('has_char', (s_, at), 'bool'), option_some(mk_call('char_at', (s_, at), 'char')), OPTION_NONE), st
+        citems, st = iter_items_cond(ex, ctx, st, it_)
+        if not all(c is TRUE for c, _ in citems):
+            raise Uncertified("nth over items that may be absent")
+        items = [x for _, x in citems]
+        k_ = args[1][1]
+        if itref[0] == 'ref':
+            ex.store(st, itref, m_iter('ArrayIter', agg(('array',), items[k_ + 1:]), C(0, 'usize')))
+        return (option_some(items[k_]) if k_ < len(items) else OPTION_NONE), st
+    if dpath == 'core::iter::Iterator::collect' or dpath == 'core::iter::Iterator::nth':
         raise Uncertified("iterator consumer %s" % name)
     if path in ('core::slice::<impl [T]>::windows', 'core::slice::<impl [T]>::chunks'):
         arr0 = ex.load(st, args[0])
@@ -1589,6 +1717,15 @@ def comparator_direction(ex, ctx, st, clos, ety, by_key=False):
     ra = ex.new_tmp(st, a)
     rb = ex.new_tmp(st, b)
     r, st = call_closure(ex, ctx, st, clos, [ra, rb])
+    # the three probes below only decide the direction of a comparator that looks at its arguments through ordering
+    # comparisons of the two whole values; anything else (masking, keys, tie-breaks) is left to the exact sort model
+    from .evals import walk, children
+    for x_ in walk(r):
+        for ch_ in children(x_):
+            if ch_ is a or ch_ is b:
+                okc_ = x_[0] == 'bin' and x_[1] in ('Lt', 'Le', 'Gt', 'Ge', 'Eq', 'Ne') and {id(x_[2]), id(x_[3])} <= {id(a), id(b)}
+                if not okc_:
+                    raise Uncertified("sort comparator looks inside the values it compares")
     res = {}
     for (x, y, rel) in ((1, 2, 'lt'), (2, 2, 'eq'), (2, 1, 'gt')):
         v = evaluate(ex.pdb, r, {'$cmp_a': x, '$cmp_b': y})
